@@ -414,6 +414,70 @@ pub fn cmd_serve(st: &mut crate::State, arg: &str) -> String {
             }
             format!("{} END={} RACE={}", status.split(' ').next().unwrap_or(""), t_end, out.join(","))
         }
+        "resend" => {
+            // serve resend <k> <gap_ms> <classic 0|1>
+            // The SAME request (same bytes, same socket) is sent k times, gap_ms apart, the server
+            // processing after each send. Output per send: "t_send:MIDP" (MIDP in the protocol's unit,
+            // t_send in microseconds) — a reply to a retransmission is signed when IT is answered.
+            let srv = match st.srv.as_mut() {
+                Some(s) => s,
+                None => return "NO-SERVER".into(),
+            };
+            let p: Vec<u64> = rest.split(' ').filter(|x| !x.is_empty()).map(|x| x.parse().unwrap()).collect();
+            let (k, gap, classic) = (p[0] as usize, p[1], p[2] == 1);
+            let dest = format!("127.0.0.1:{}", srv.port);
+            let sock = StdUdp::bind("127.0.0.1:0").unwrap();
+            sock.set_nonblocking(true).unwrap();
+            let req = {
+                let nonce: Vec<u8> = (0..if classic { 64 } else { 32 }).map(|i| (i * 7 + 3) as u8).collect();
+                if classic {
+                    let mut m = roughenough::RtMessage::with_capacity(2);
+                    m.add_field(roughenough::Tag::NONC, &nonce).unwrap();
+                    m.add_field(roughenough::Tag::PAD, &vec![0u8; 944]).unwrap();
+                    m.encode().unwrap()
+                } else {
+                    let mut m = roughenough::RtMessage::with_capacity(3);
+                    m.add_field(roughenough::Tag::VER, &[0x0c, 0x00, 0x00, 0x80]).unwrap();
+                    m.add_field(roughenough::Tag::NONC, &nonce).unwrap();
+                    m.add_field(roughenough::Tag::ZZZZ, &vec![0u8; 1024 - 24 - 4 - 32]).unwrap();
+                    m.encode_framed().unwrap()
+                }
+            };
+            let mut out = Vec::new();
+            let mut buf = [0u8; 65536];
+            for _ in 0..k {
+                let t_send = now_us() as u64;
+                let _ = sock.send_to(&req, &dest);
+                let mut got = None;
+                for _ in 0..4 {
+                    let status = srv.process();
+                    if status == "PANIC" || status == "DEAD" {
+                        return format!("{} RESEND={}", status, out.join(","));
+                    }
+                    if let Ok((n, _)) = sock.recv_from(&mut buf) {
+                        got = Some(n);
+                        break;
+                    }
+                }
+                match got {
+                    None => out.push(format!("{}:none", t_send)),
+                    Some(n) => {
+                        let payload = if classic { &buf[..n] } else { &buf[12..n] };
+                        let midp = roughenough::RtMessage::from_bytes(payload)
+                            .ok()
+                            .and_then(|m| m.get_field(roughenough::Tag::SREP).map(|x| x.to_vec()))
+                            .and_then(|b| roughenough::RtMessage::from_bytes(&b).ok())
+                            .and_then(|sm| sm.get_field(roughenough::Tag::MIDP).map(|x| x.to_vec()));
+                        match midp {
+                            Some(mp) if mp.len() == 8 => out.push(format!("{}:{}", t_send, u64::from_le_bytes(mp[..8].try_into().unwrap()))),
+                            _ => out.push(format!("{}:unparsed", t_send)),
+                        }
+                    }
+                }
+                std::thread::sleep(Duration::from_millis(gap));
+            }
+            format!("OK END={} RESEND={}", now_us(), out.join(","))
+        }
         "drop" => {
             if let Some(s) = st.srv.take() {
                 let _ = s.tx.send(Cmd::Quit);
